@@ -135,12 +135,17 @@ func (l *lexer) nextToken(r rune, text string) (tok Token, _ bool) {
 	return tok, true
 }
 
+// scanSpace skips whitespace and comments.
 func scanSpace(s *scanner.Scanner) {
 	for {
-		if ch := s.Peek(); !unicode.IsSpace(ch) {
+		switch ch := s.Peek(); {
+		case unicode.IsSpace(ch):
+			s.Next()
+		case ch == '#':
+			lexerql.ScanComment(s)
+		default:
 			return
 		}
-		s.Next()
 	}
 }
 
